@@ -184,6 +184,19 @@ def generic_rules(body):
     # R9  &V[..] => V.as_slice()      (full-range slice of a Vec; vstd specifies as_slice)
     for h in re.finditer(r'&\s*([A-Za-z_]\w*)\s*\[\s*\.\.\s*\]', m):
         edits.append((h.start(), h.end(), '%s.as_slice()' % h.group(1), 'R9'))
+    # R12  E.map_or(D, |v| B) => (match E { Some(v) => B, None => D })     exact desugaring of Option::map_or for a closure
+    #      without control flow; D is evaluated eagerly by map_or, so D must be a literal or a path (no side effect)
+    for h in re.finditer(r'([A-Za-z_]\w*(?:\s*\.\s*\w+)*?)\s*\.\s*map_or\s*\(', m):
+        op = h.end() - 1
+        cl = match_brace(m, op)
+        inner = body[op + 1:cl]
+        cm = re.match(r'^\s*([\w:.]+)\s*,\s*\|\s*(\w+)\s*\|\s*(.*?)\s*$', inner, re.S)
+        if not cm or re.search(r'\b(return|break|continue)\b|\?', mask(cm.group(3))):
+            raise LostAnchor('rule R12: map_or whose arguments are not `literal-or-path, |v| expr`')
+        edits.append((h.start(), cl + 1, '(match %s { Some(%s) => %s, None => %s })' % (re.sub(r'\s+', '', h.group(1)), cm.group(2), cm.group(3), cm.group(1)), 'R12'))
+    # R11  V.binary_search(&E) => V.binary_search_v(&E)   (trait shim with std's full contract for an ascending u64 list, prelude/sortv.rs)
+    for h in re.finditer(r'\.\s*binary_search\s*\(', m):
+        edits.append((h.start(), h.end(), '.binary_search_v(', 'R11'))
     # R7  V.sort_unstable() => V.sort_unstable_v()   (trait shim, prelude/sortv.rs)
     for h in re.finditer(r'\b([A-Za-z_]\w*)\s*\.\s*sort_unstable\(\)', m):
         edits.append((h.start(), h.end(), '%s.sort_unstable_v()' % h.group(1), 'R7'))
@@ -514,6 +527,33 @@ def build_fn(key, mode, log):
                         break
                     p += 1
                 inserts.append((p + 1, ghost_text(d), tag, d))
+        elif k == 'scope-end':
+            # last position of the block in which `let NAME` is declared (where a guard bound to NAME is dropped)
+            nm = d['arg'].split()[0]
+            hits = list(re.finditer(r'\blet\s+(mut\s+)?' + re.escape(nm) + r'\b', masked))
+            if len(hits) != 1:
+                raise LostAnchor('%s:%d: `let %s` found %d times in %s' % (c.rel, d['lineno'], nm, len(hits), where))
+            p = hits[0].start() - 1
+            depth = 0
+            while p >= 0:
+                ch = masked[p]
+                if ch in ')]}':
+                    depth += 1
+                elif ch in '([{':
+                    if depth == 0:
+                        break
+                    depth -= 1
+                p -= 1
+            if p < 0:
+                end = len(masked.rstrip())
+            else:
+                if masked[p] != '{':
+                    raise LostAnchor('%s:%d: `let %s` is not directly inside a block in %s' % (c.rel, d['lineno'], nm, where))
+                end = match_brace(masked, p)
+            prev = masked[:end].rstrip()
+            if prev and prev[-1] not in ';}{':
+                raise LostAnchor('%s:%d: the block declaring %s ends in a tail expression in %s' % (c.rel, d['lineno'], nm, where))
+            inserts.append((end, ghost_text(d), tag, d))
         elif k == 'loop-after':
             n = int(d['arg'].split()[0])
             if n < 1 or n > len(loops):
